@@ -50,7 +50,10 @@ Clauses(pre, e) ==
         viaRef == \/ o.f = "set" /\ RefOnPath(I, o.path)      \* C11 decides these
                   \/ Inherited(I, o.path) # {}                \* an inherited name is a reference, too
     IN
-    IF e.res = "ok" THEN
+    \* shapes the projection does not follow (e.g. a top-level identifier resolved through a with-environment) may still be
+    \* editable for the code: nothing is prescribed for them, except that a refusal is atomic
+    IF pre.shape = "noneditable" /\ e.res = "ok" THEN {}
+    ELSE IF e.res = "ok" THEN
         (IF ~e.valid THEN {"C05_Valid"} ELSE {}) \cup
         (IF ~e.stable THEN {"C06_EditStable"} ELSE {}) \cup
         (IF ~e.coherent THEN {"C14_TextAgrees"} ELSE {}) \cup
